@@ -168,7 +168,10 @@ void rsValuesFacet::PruneStructure(const EntityUID target) {
     return;
   } 
   const auto& typeValue = core.GetParse(target).exprType;
-  assert(typeValue.has_value());
+  if (!typeValue.has_value()) {
+    storage->Erase(target);
+    return;
+  }
   // NOLINTNEXTLINE(bugprone-exception-escape, bugprone-unchecked-optional-access)
   const auto& type = std::get<rslang::Typification>(typeValue.value());
   if (!oldData->IsCollection()) {
